@@ -93,8 +93,20 @@ def run(case):
     k = case["k"]
     if k == "str":
         skip = case["skip"]
-        g = string_generator() if skip is None else string_generator(skip=set(skip) if case["as_set"] else list(skip))
-        return {"obs": list(itertools.islice(g, case["n"]))}
+        if skip is None:
+            return {"obs": list(itertools.islice(string_generator(), case["n"]))}
+        # the skip collection belongs to the caller: it is left as given and serves a second generator just as well
+        box = set(skip) if case["as_set"] else list(skip)
+        given = type(box)(box)
+        first = list(itertools.islice(string_generator(skip=box), case["n"]))
+        assert box == given, "string_generator edited the caller's skip collection: %r -> %r" % (given, box)
+        g2 = string_generator(skip=box)
+        half = list(itertools.islice(g2, case["n"] // 2))
+        g3 = string_generator(skip=box)            # two generators over one collection, advanced by turns
+        again = half + list(itertools.islice(g2, case["n"] - len(half)))
+        third = list(itertools.islice(g3, case["n"]))
+        assert again == first and third == first and box == given, "a second string_generator over the same skip collection differs"
+        return {"obs": first}
     if k == "int":
         return {"obs": list(itertools.islice(int_generator(), case["n"]))}
     if k == "pair":
